@@ -533,9 +533,14 @@ def addEdge (es : List EEntry) (v1 v2 : Nat) (d : EdgeDecl) (forward : Bool) : L
       if forward then d.fwd else d.bwd⟩]
   else es
 
-/-- `EdgeList.add_from_operation`: the beams in the generated enumeration order and direction -/
+/-- the order and direction in which `EdgeList.add_from_operation` walks the twelve beams (corner pairs; the closing
+    beams of the faces are written `3 0` and `7 4`); compared with a probe of the current source in `T_C06_edge_order` -/
+def edgeOrder : List (Nat × Nat) :=
+  [(0, 1), (3, 0), (0, 4), (1, 2), (1, 5), (2, 3), (2, 6), (3, 7), (4, 5), (7, 4), (5, 6), (6, 7)]
+
+/-- `EdgeList.add_from_operation`: the beams in enumeration order and direction -/
 def addEdges (es : List EEntry) (o : OpDecl) (verts : List Nat) : List EEntry :=
-  CBV.Gen.c06EdgeOrder.foldl (fun es (a, b) =>
+  edgeOrder.foldl (fun es (a, b) =>
     match slotOfPair a b with
     | some slot =>
         match o.edges[slot]? with
@@ -928,6 +933,9 @@ def handleRender (args : List String) : Option String := do
   some (s!"ok idx={b2s (indicesOk d)} geom={b2s (geometryOk d)} quads={b2s (quadsOk d)} rt={b2s (roundTripOk d)} T " ++
     showToks (render d))
 
+/-- the words `write_vtk` prints before `DATASET` (compared with a probe of the current source in `T_C06_vtk_header`) -/
+def vtkHeader : List String := ["#", "vtk", "DataFile", "Version", "2.0", "classy_blocks", "debug", "output", "ASCII"]
+
 /-- `c06.vtk <declaration>` → token stream of the debug VTK -/
 def handleVtk (args : List String) : Option String := do
   let (decl, rest) ← rdDecl.run args
@@ -935,8 +943,8 @@ def handleVtk (args : List String) : Option String := do
   let va := declVA decl
   let pts := va.1.vertices.map (·.pos.vtk)
   let cells := va.2.map (·.map (·.index))
-  let out := renderVtk CBV.Gen.c06VtkHeader pts cells
-  let back := match parseVtk CBV.Gen.c06VtkHeader.length out with
+  let out := renderVtk vtkHeader pts cells
+  let back := match parseVtk vtkHeader.length out with
     | some (p, c) => p == pts && c == cells
     | none => false
   some (s!"ok rt={b2s back} T " ++ " ".intercalate (out.map escape))
